@@ -12,7 +12,7 @@ import eqlgen as G
 from core import Case
 
 PID = "C10"
-LEAN_MODULES = ["KrroodVerif.Props.C10"]
+LEAN_MODULES = ["KrroodVerif.Props.C10", "KrroodVerif.Props.C10Q"]
 THEOREMS = [
     "KrroodVerif.Eql.C10_trace_vis",
     "KrroodVerif.Eql.C10_trace_rows",
@@ -30,6 +30,29 @@ THEOREMS = [
     "KrroodVerif.Eql.C10_continuity_prefix",
     "KrroodVerif.Eql.C10_continuity_rows",
     "KrroodVerif.Eql.C10_continuity_trace",
+    "KrroodVerif.Eql.C10Q_exists_vis",
+    "KrroodVerif.Eql.C10Q_exists_rows",
+    "KrroodVerif.Eql.C10Q_existsWalk_vis",
+    "KrroodVerif.Eql.C10Q_forall_filter",
+    "KrroodVerif.Eql.C10Q_forall_vis",
+    "KrroodVerif.Eql.C10Q_forall_rows",
+    "KrroodVerif.Eql.C10Q_query_vis",
+    "KrroodVerif.Eql.C10Q_query_rows",
+    "KrroodVerif.Eql.C10Q_prefix_query",
+    "KrroodVerif.Eql.C10Q_body_never_pulls_bound",
+    "KrroodVerif.Eql.C10Q_forAllLoop_pulls_le",
+    "KrroodVerif.Eql.C10Q_forAllLoop_early_stop",
+    "KrroodVerif.Eql.C10Q_forall_early_exit",
+    "KrroodVerif.Eql.C10Q_forall_pulled_exact",
+    "KrroodVerif.Eql.C10Q_forall_partial_pull_no_rows",
+    "KrroodVerif.Eql.C10Q_sel_bound_vars",
+    "KrroodVerif.Eql.C10Q_existsWalk_nonrow",
+    "KrroodVerif.Eql.C10Q_exists_nonrow",
+    "KrroodVerif.Eql.C10Q_exists_nonrow'",
+    "KrroodVerif.Eql.C10Q_exists_streaming",
+    "KrroodVerif.Eql.C10Q_exists_streaming_var",
+    "KrroodVerif.Eql.C10Q_pull_in_range",
+    "KrroodVerif.Eql.C10Q_pulled_le_domain",
 ]
 MODEL_FUNCTION = ("Eql.traceQuery / Eql.traceE / Eql.uptoRow / Eql.pulled (Model/EqlTrace.lean); Eql.traceExistsRoot / "
                   "Eql.traceForAllRoot (Model/EqlTraceQ.lean)")
